@@ -6,7 +6,7 @@ from .. import oracle as o
 
 ID = 'C07'
 RULE = ('one record per decrypt attempt (one-shot and incremental with 2 partitions); verdict must be true iff the supplied tag equals the '
-        'RFC 8439 tag of the inputs as submitted; tuples include ciphertexts solved so that the Poly1305 accumulator hits carry-rippling patterns (valid tag and tag +- 2^k); from each valid tuple: all 128 single-bit tag flips, multi-byte tag changes whose XOR cancels, '
+        'RFC 8439 tag of the inputs as submitted (incremental deliveries include a short misaligning piece followed by 16-byte-multiple pieces); tuples include ciphertexts solved so that the Poly1305 accumulator hits carry-rippling patterns (valid tag and tag +- 2^k); from each valid tuple: all 128 single-bit tag flips, multi-byte tag changes whose XOR cancels, '
         'complemented tag, sampled bit flips in ciphertext / AAD / nonce / key, truncation and extension, bytes moved across the AAD|ciphertext '
         'boundary, swapped lengths, foreign tag, zero tag, and the unmodified tuple; distinct = (interface, mutation kind, position)')
 ASSUMPTIONS = ['AEAD model of C06']
@@ -23,6 +23,12 @@ def dec_lines(rng, rounds, key, nonce, aad, ct, tag, kind):
     c1 = rng.rng(0, len(ct)); a1 = rng.rng(0, len(aad))
     yield 'aead_inc %d %s %s a.%s a.%s D %s.%s %s.%s fin.%s #%s' % (
         rounds, k, nn, hx(aad[:a1]), hx(aad[a1:]), rng.choice(['d', 'dm']), hx(ct[:c1]), rng.choice(['d', 'dm']), hx(ct[c1:]), tag.hex(), kind)
+    if kind in ('valid', 'valid-directed-accumulator', 'tag-zero', 'tag-last-byte') or kind.startswith(('ct-bit', 'aad-bit')):
+        # a short piece that leaves the MAC input misaligned, followed by pieces whose length is a multiple of 16
+        a1 = min(len(aad), rng.choice([1, 4, 7])); a2 = a1 + 16 * ((len(aad) - a1) // 16)
+        c1 = min(len(ct), rng.choice([2, 5, 15])); c2 = c1 + 16 * ((len(ct) - c1) // 16)
+        yield 'aead_inc %d %s %s a.%s a.%s a.%s D %s.%s %s.%s %s.%s fin.%s #%s' % (
+            rounds, k, nn, hx(aad[:a1]), hx(aad[a1:a2]), hx(aad[a2:]), rng.choice(['d', 'dm']), hx(ct[:c1]), rng.choice(['d', 'dm']), hx(ct[c1:c2]), rng.choice(['d', 'dm']), hx(ct[c2:]), tag.hex(), kind)
 
 
 def flip(b, bit):
